@@ -1,3 +1,4 @@
 //! Shared simulators.
 pub mod driver;
+pub mod hostile;
 pub mod world;
